@@ -76,15 +76,17 @@ Lemma asm_with_masm_later : forall tg h a v m m' tg' h', asm_ok tg h a v -> val_
   m_w m <> None -> Ext tg h tg' h' -> masm_ok tg' h' a m' -> asm_ok tg' h' a (val_with_masm v m').
 Proof.
   destruct v; cbn; intros m0 m' tg' h' H E Hw HE Hm; inversion E; subst; auto.
-  destruct H as (_ & Hl & Hs & [Hd|Hd]); [contradiction|].
-  split; [assumption|]. split; [eapply lasm_ok_now; eauto|]. split; [eapply fref_ext; eauto | auto].
+  destruct H as (_ & Hl & Hs & [Hd|Hd] & Hk); [contradiction|].
+  split; [assumption|]. split; [eapply lasm_ok_now; eauto|]. split; [eapply fref_ext; eauto |].
+  split; [auto|]. intros Ek. destruct (Hk Ek). contradiction.
 Qed.
 Lemma asm_with_lasm_later : forall tg h a v l l' tg' h', asm_ok tg h a v -> val_lasm v = Some l ->
   l_w l <> None -> Ext tg h tg' h' -> lasm_ok tg' h' a l' -> asm_ok tg' h' a (val_with_lasm v l').
 Proof.
   destruct v; cbn; intros l0 l' tg' h' H E Hw HE Hm; inversion E; subst; auto.
-  destruct H as (Hmm & _ & Hs & [Hd|Hd]); [|contradiction].
-  split; [eapply masm_ok_now; eauto|]. split; [assumption|]. split; [eapply fref_ext; eauto | auto].
+  destruct H as (Hmm & _ & Hs & [Hd|Hd] & Hk); [|contradiction].
+  split; [eapply masm_ok_now; eauto|]. split; [assumption|]. split; [eapply fref_ext; eauto |].
+  split; [auto|]. intros Ek. destruct (Hk Ek). contradiction.
 Qed.
 
 (* "quiet" moves: tags of allocated cells stay, non-array cells stay, arrays stay arrays *)
@@ -960,8 +962,10 @@ Lemma acc_result_ok : forall cf tg h ar r a x h', Inv tg h -> fref tg h r -> str
   exec ar (acc_prog cf r a) h = (Done x, h') -> ares_ok x tg h.
 Proof.
   intros * HI Hr Hs He.
-  destruct r; try (destruct a; cbn in Hs; try discriminate; unfold acc_prog, rdv in He;
-                   acc_simpl He; inversion He; subst; cbn; auto; fail).
+  destruct r.
+  - destruct a; cbn in Hs; try discriminate; unfold acc_prog, rdv in He; acc_simpl He; inversion He; subst; cbn; auto.
+  - destruct a; cbn in Hs; try discriminate; unfold acc_prog, rdv in He; acc_simpl He; inversion He; subst; cbn; auto.
+  - destruct a; cbn in Hs; try discriminate; unfold acc_prog, rdv in He; acc_simpl He; inversion He; subst; cbn; auto.
   - (* RBytesP *)
     destruct a; cbn in Hs; try discriminate; unfold acc_prog in He; cbn in He;
       try (rewrite ?exec_ret in He; inversion He; subst; exact I).
@@ -1001,10 +1005,239 @@ Proof.
       pose proof (exec_read_slice_ok _ _ _ _ _ _ Ht Er) as Fl.
       apply Forall_map. revert Fl. apply Forall_impl. intros v Hv. apply slot_node_of. assumption.
   - (* RForeign *)
-    destruct a; unfold acc_prog in He; cbn in He; acc_simpl He; inversion He; subst; cbn; auto.
-    + destruct (assoc_dm m k); exact I.
-    + destruct (nth_error l (Z.to_nat i)); exact I.
-    + apply Forall_map. apply Forall_forall. intros; exact I.
-    + apply Forall_map. apply Forall_forall. intros; exact I.
-    + destruct (dm_scalar d) as [sv|]; [destruct (skind_eqb k (scalar_kind sv))|]; exact I.
+    destruct a; unfold acc_prog in He; cbn in He; acc_simpl He; inversion He; subst; cbn; auto;
+      repeat match goal with
+             | |- ares_ok (if ?b then _ else _) _ _ => destruct b
+             | |- ares_ok (match ?x with _ => _ end) _ _ => destruct x
+             | |- match (if ?b then _ else _) with _ => _ end => destruct b
+             | |- match (match ?x with _ => _ end) with _ => _ end => destruct x
+             end; cbn; auto;
+      try (apply Forall_map; apply Forall_forall; intros; exact I).
+Qed.
+
+Lemma ares_ok_stable : forall x, stable (ares_ok x).
+Proof.
+  intros x tg h tg' h' H HE. destruct x; cbn in *; auto.
+  - eapply fref_ext; eauto.
+  - revert H. apply Forall_impl. intros; eapply fref_ext; eauto.
+  - revert H. apply Forall_impl. intros; eapply fref_ext; eauto.
+  - destruct alias; [eapply bslice_ok_ext; eauto | exact I].
+Qed.
+
+Lemma t_acc_prog : forall cf r a, triple (a_fref r) (acc_prog cf r a) ares_ok.
+Proof.
+  intros cf r a. destruct (stream_acc r a) eqn:Hs.
+  - destruct r; try discriminate. destruct a; try discriminate; cbn.
+    + eapply triple_bind with (Q1 := fun _ => fun _ _ => True).
+      * eapply triple_conseq; [apply t_stream_read | |intros; exact I]. intros tg h _ H. exact H.
+      * intros bs. apply triple_ret. intros; exact I.
+    + eapply triple_bind with (Q1 := fun _ => fun _ _ => True).
+      * eapply triple_conseq; [apply t_stream_read | |intros; exact I]. intros tg h _ H. exact H.
+      * intros bs. apply triple_ret. intros; exact I.
+  - apply triple_wfree; [apply acc_wfree; assumption|].
+    intros tg h ar x HI HP He. eapply acc_result_ok; eauto.
+Qed.
+
+(* ------------------------------------------------------------------ fresh scalars *)
+
+Lemma t_new_scalar_node : forall sv, triple (fun _ _ => True) (new_scalar_node sv) (fun r => a_fref r).
+Proof.
+  intros sv tg h ar o h' HI _ He. unfold new_scalar_node, newv in He.
+  rewrite exec_new in He. destruct (halloc ar h (CPtr (VScalar sv))) as [h1 x] eqn:A1.
+  rewrite exec_ret in He. inversion He; subst.
+  exists (set_tag tg x TFrozen). split; [eapply step_new_frozen; eauto; exact I|].
+  unfold a_fref; cbn. split; [apply set_tag_same|]. exists sv. eapply hget_halloc_new; eauto.
+Qed.
+
+Lemma t_sval_node : forall v, triple (fun _ _ => True) (sval_node v) (fun r => a_fref r).
+Proof.
+  intros [|sv]; cbn; [apply triple_ret; intros; exact I | apply t_new_scalar_node].
+Qed.
+
+(* ------------------------------------------------------------------ child assemblers *)
+
+Lemma halloc_addr : forall ar (h h1 : mheap) c x, halloc ar h c = (h1, x) -> x = (ar, length (nth ar h [])).
+Proof. unfold halloc; intros * H; inversion H; reflexivity. Qed.
+
+Lemma t_val_begin_map : forall pf pa hint, triple (fun _ _ => True) (val_begin_map pf pa hint) tt_post.
+Proof.
+  intros pf pa hint tg h ar o h' HI _ He. unfold val_begin_map, newv in He.
+  pose proof (step_refl _ _ HI) as S0.
+  rewrite exec_bind in He. destruct (exec ar (va_parent pf pa) h) as [[p|] h0] eqn:Ep;
+    pose proof (exec_wfree _ _ (wfree_va_parent pf pa) _ _ _ _ Ep); subst h0; [|crashS S0].
+  rewrite exec_new in He. destruct (halloc ar h (CPtr (VMapHdr nil_slice None))) as [h1 s] eqn:A1.
+  rewrite exec_new in He.
+  match type of He with context [halloc ar h1 ?c] => destruct (halloc ar h1 c) as [h2 c2] eqn:A2 end.
+  destruct (hget_halloc_new _ _ _ _ _ _ A1) as [N1 O1]. destruct (hget_halloc_new _ _ _ _ _ _ A2) as [N2 O2].
+  assert (S1 : Step tg h (set_tag tg s (TOwned c2)) h1) by (eapply step_new_owned; eauto; exact I).
+  assert (Hsc : s <> c2) by neq.
+  assert (S2 : Step (set_tag tg s (TOwned c2)) h1 (set_tag (set_tag tg s (TOwned c2)) c2 TAsm) h2).
+  { eapply step_new; eauto. destruct S1; assumption. intros tg1 -> HE Hx.
+    unfold cell_ok_at. rewrite set_tag_same. eexists. split; [eassumption|]. cbn. unfold masm_ok; cbn.
+    split; [discriminate|]. split; [discriminate|].
+    rewrite set_tag_other by assumption. rewrite set_tag_same. split; [reflexivity|].
+    exists nil_slice, None. split; [eapply hget_halloc_mono; eauto|]. split; exact I. }
+  pose proof (step_trans _ _ _ _ _ _ S1 S2) as S12.
+  destruct (t_map_begin c2 hint _ h2 ar o h' (proj1 S12)) as (tg3 & S3 & _); [|exact He|].
+  { intros v m Gv Vm. rewrite N2 in Gv. inversion Gv; subst v. cbn in Vm. inversion Vm; subst m. cbn. discriminate. }
+  exists tg3. split; [eapply step_trans; eauto | destruct o; exact I].
+Qed.
+
+Lemma t_val_begin_list : forall pf pa hint, triple (fun _ _ => True) (val_begin_list pf pa hint) tt_post.
+Proof.
+  intros pf pa hint tg h ar o h' HI _ He. unfold val_begin_list, newv in He.
+  pose proof (step_refl _ _ HI) as S0.
+  rewrite exec_bind in He. destruct (exec ar (va_parent pf pa) h) as [[p|] h0] eqn:Ep;
+    pose proof (exec_wfree _ _ (wfree_va_parent pf pa) _ _ _ _ Ep); subst h0; [|crashS S0].
+  rewrite exec_new in He. destruct (halloc ar h (CPtr (VListHdr nil_slice))) as [h1 s] eqn:A1.
+  rewrite exec_new in He.
+  match type of He with context [halloc ar h1 ?c] => destruct (halloc ar h1 c) as [h2 c2] eqn:A2 end.
+  destruct (hget_halloc_new _ _ _ _ _ _ A1) as [N1 O1]. destruct (hget_halloc_new _ _ _ _ _ _ A2) as [N2 O2].
+  assert (S1 : Step tg h (set_tag tg s (TOwned c2)) h1) by (eapply step_new_owned; eauto; exact I).
+  assert (Hsc : s <> c2) by neq.
+  assert (S2 : Step (set_tag tg s (TOwned c2)) h1 (set_tag (set_tag tg s (TOwned c2)) c2 TAsm) h2).
+  { eapply step_new; eauto. destruct S1; assumption. intros tg1 -> HE Hx.
+    unfold cell_ok_at. rewrite set_tag_same. eexists. split; [eassumption|]. cbn. unfold lasm_ok; cbn.
+    split; [discriminate|].
+    rewrite set_tag_other by assumption. rewrite set_tag_same. split; [reflexivity|].
+    exists nil_slice. split; [eapply hget_halloc_mono; eauto|]. exact I. }
+  pose proof (step_trans _ _ _ _ _ _ S1 S2) as S12.
+  destruct (t_list_begin c2 hint _ h2 ar o h' (proj1 S12)) as (tg3 & S3 & _); [|exact He|].
+  { intros v l Gv Vm. rewrite N2 in Gv. inversion Gv; subst v. cbn in Vm. inversion Vm; subst l. cbn. discriminate. }
+  exists tg3. split; [eapply step_trans; eauto | destruct o; exact I].
+Qed.
+
+(* ------------------------------------------------------------------ the AssignNode shortcut *)
+
+(* `*na.w = *v2; na.state = finished`: the struct owned by a receives a FROZEN header and becomes
+   frozen in the same step; its previous array and map (owned by a) are simply abandoned. *)
+Lemma shortcut_step : forall tg h a c0 s cs chdr v',
+  Inv tg h -> tg a = TAsm -> hget h a = Some c0 -> tg s = TOwned a -> hget h s = Some cs ->
+  frozen_ok tg h chdr -> (exists t g, chdr = CPtr (VMapHdr t g)) \/ (exists x, chdr = CPtr (VListHdr x)) ->
+  (forall tg' h', Ext tg h tg' h' -> tg' s = TFrozen -> hget h' s = Some chdr -> asm_ok tg' h' a v') ->
+  Step tg h (set_tags tg [s] TFrozen) (hset (hset h s chdr) a (CPtr v')).
+Proof.
+  intros * HI Ta Ga Ts Gs Fh Hshape Hasm.
+  set (tg' := set_tags tg [s] TFrozen). set (h' := hset (hset h s chdr) a (CPtr v')).
+  assert (Hsa : s <> a) by neq.
+  assert (Hh : forall x, x <> s -> x <> a -> hget h' x = hget h x).
+  { intros x H1 H2. unfold h'. rewrite !hget_hset_other; auto. }
+  assert (Hs' : hget h' s = Some chdr).
+  { unfold h'. rewrite hget_hset_other by auto. rewrite hget_hset, addr_eqb_refl, Gs. reflexivity. }
+  assert (Ha' : hget h' a = Some (CPtr v')).
+  { unfold h'. rewrite hget_hset, addr_eqb_refl. rewrite hget_hset_other by assumption. rewrite Ga. reflexivity. }
+  assert (Tn : forall x, x <> s -> tg' x = tg x).
+  { intros x Hx. unfold tg'. apply set_tags_out. intros [E|[]]; congruence. }
+  assert (HE : Ext tg h tg' h').
+  { intros y Fy. assert (y <> s) by neq. assert (y <> a) by neq.
+    rewrite Tn by assumption. split; [assumption|]. rewrite Hh by assumption. apply oeqv_refl. }
+  split; [|assumption].
+  eapply inv_frame with (W := [s; a]); eauto.
+  - intros y Hn. assert (y <> s) by (intros ->; apply Hn; left; reflexivity).
+    assert (y <> a) by (intros ->; apply Hn; right; left; reflexivity). split; [apply Tn; assumption | apply Hh; assumption].
+  - intros y [<-|[<-|[]]].
+    + unfold cell_ok_at. unfold tg' at 1. rewrite set_tags_in by (left; reflexivity).
+      exists chdr. split; [assumption|]. eapply frozen_ok_ext; eauto using cell_eqv_refl.
+    + unfold cell_ok_at. rewrite Tn by auto. rewrite Ta. exists v'. split; [assumption|].
+      apply Hasm; auto. unfold tg'. apply set_tags_in. left; reflexivity.
+  - intros b Hb Tb. apply keeps_owned_untouched. intros y Hy.
+    assert (b <> a) by (intros ->; apply Hb; right; left; reflexivity).
+    assert (y <> s) by neq. assert (y <> a) by neq. split; [apply Tn; assumption | apply Hh; assumption].
+Qed.
+
+Definition a_true : assertion := fun _ _ => True.
+
+Lemma triple_pre_true : forall A (P : assertion) (p : mprog A) (Q : A -> assertion), triple a_true p Q -> triple P p Q.
+Proof. intros * T. eapply triple_conseq; [exact T | intros; exact I | auto]. Qed.
+
+Lemma triple_post_tt : forall A (P : assertion) (p : mprog A) (Q : A -> assertion), triple P p Q -> triple P p tt_post.
+Proof. intros * T. eapply triple_conseq; [exact T | auto | intros; exact I]. Qed.
+
+Lemma triple_seq_tt : forall A B (p : mprog A) (f : A -> mprog B) (Q : B -> assertion),
+  triple a_true p tt_post -> (forall a, triple a_true (f a) Q) -> triple a_true (pbind p f) Q.
+Proof.
+  intros * T1 T2. eapply triple_bind; [exact T1|]. intros a. apply triple_pre_true. apply T2.
+Qed.
+
+Lemma t_map_copy_loop : forall cf a es, triple a_true (map_copy_loop cf a es) tt_post.
+Proof.
+  intros cf a. induction es as [|[k d] es IH]; cbn [map_copy_loop].
+  - apply t_map_finish_top.
+  - apply triple_seq_tt; [apply t_map_assemble_key|]. intros ?.
+    apply triple_seq_tt; [apply t_key_assign_string|]. intros o.
+    assert (Hgo : triple a_true
+              (let* _ := map_assemble_value a in let* _ := va_assign_m a (RForeign d) in map_copy_loop cf a es) tt_post).
+    { apply triple_seq_tt; [apply t_map_assemble_value|]. intros ?.
+      apply triple_seq_tt; [|intros ?; exact IH].
+      eapply triple_conseq; [apply (t_va_assign_m a (RForeign d)) | intros; exact I | auto]. }
+    destruct o; try exact Hgo. apply triple_ret. intros; exact I.
+Qed.
+
+Lemma t_list_copy_loop : forall cf a ds, triple a_true (list_copy_loop cf a ds) tt_post.
+Proof.
+  intros cf a. induction ds as [|d ds IH]; cbn [list_copy_loop].
+  - apply t_list_finish_top.
+  - apply triple_seq_tt; [apply t_list_assemble_value|]. intros ?.
+    apply triple_seq_tt; [|intros ?; exact IH].
+    eapply triple_conseq; [apply (t_va_assign_l cf a (RForeign d)) | intros; exact I | auto].
+Qed.
+
+Lemma t_map_assign_node : forall cf a r, triple (a_fref r) (map_assign_node cf a r) tt_post.
+Proof.
+  intros cf a r tg h ar o h' HI HP He. unfold map_assign_node, rd_masm, rdv, wrv in He. unfold a_fref in HP.
+  pose proof (step_refl _ _ HI) as S0.
+  rewrite exec_rd in He. destruct (hget h a) as [[| |v| |]|] eqn:Ga; try crash0.
+  destruct (val_masm v) as [m|] eqn:Vm; [|crash0].
+  destruct (mst_eqb (m_st m) MInitial) eqn:St; cbn [negb] in He; [|crash0].
+  apply mst_eqb_eq in St.
+  destruct (open_masm _ _ _ _ _ HI Ga Vm) as (Ta & Hok & Hm).
+  destruct r as [| | | | |s2| |d]; try crash0; try doneS S0.
+  - (* shortcut *)
+    destruct (m_w m) as [s|] eqn:Ws; [|crash0].
+    destruct (frozen_map_parts _ _ _ HI HP) as (t & g & Gs2 & _).
+    rewrite exec_rd, Gs2 in He. cbv beta iota in He.
+    destruct (masm_unfinished _ _ _ _ _ Hm Ws ltac:(congruence)) as [Ts (t0 & g0 & Gs & _)].
+    rewrite exec_wr, Gs in He.
+    assert (Ga1 : hget (hset h s (CPtr (VMapHdr t g))) a = Some (CPtr v)).
+    { rewrite hget_hset_other; [assumption | neq]. }
+    rewrite exec_wr, Ga1, exec_ret in He. inversion He; subst.
+    eexists; split; [|exact I].
+    destruct HP as [Ts2 _]. destruct (inv_frozen _ _ _ HI Ts2) as [c [Gc Fc]]. rewrite Gs2 in Gc; inversion Gc; subst c.
+    eapply shortcut_step; eauto.
+    intros tg' h2 HE Tf Gh. eapply asm_with_masm_later; eauto; [congruence|].
+    pose proof Hm as (Hka & Hva & _).
+    unfold masm_ok; cbn. split; [intros E; apply Hka in E; congruence|].
+    split; [intros E; apply Hva in E; congruence|]. rewrite Ws. split; [assumption|]. eauto.
+  - (* generic copy *)
+    destruct d; try doneS S0.
+    eapply (t_map_copy_loop cf a m0); eauto; exact I.
+Qed.
+
+Lemma t_list_assign_node : forall cf a r, triple (a_fref r) (list_assign_node cf a r) tt_post.
+Proof.
+  intros cf a r tg h ar o h' HI HP He. unfold list_assign_node, rd_lasm, rdv, wrv in He. unfold a_fref in HP.
+  pose proof (step_refl _ _ HI) as S0.
+  rewrite exec_rd in He. destruct (hget h a) as [[| |v| |]|] eqn:Ga; try crash0.
+  destruct (val_lasm v) as [l|] eqn:Vm; [|crash0].
+  destruct (lst_eqb (l_st l) LInitial) eqn:St; cbn [negb] in He; [|crash0].
+  apply lst_eqb_eq in St.
+  destruct (open_lasm _ _ _ _ _ HI Ga Vm) as (Ta & Hok & Hm).
+  destruct r as [| | | | | |s2|d]; try crash0; try doneS S0.
+  - destruct (l_w l) as [s|] eqn:Ws; [|crash0].
+    destruct (frozen_list_parts _ _ _ HI HP) as (x & Gs2 & _).
+    rewrite exec_rd, Gs2 in He. cbv beta iota in He.
+    destruct (lasm_unfinished _ _ _ _ _ Hm Ws ltac:(congruence)) as [Ts (x0 & Gs & _)].
+    rewrite exec_wr, Gs in He.
+    assert (Ga1 : hget (hset h s (CPtr (VListHdr x))) a = Some (CPtr v)).
+    { rewrite hget_hset_other; [assumption | neq]. }
+    rewrite exec_wr, Ga1, exec_ret in He. inversion He; subst.
+    eexists; split; [|exact I].
+    destruct HP as [Ts2 _]. destruct (inv_frozen _ _ _ HI Ts2) as [c [Gc Fc]]. rewrite Gs2 in Gc; inversion Gc; subst c.
+    eapply shortcut_step; eauto.
+    intros tg' h2 HE Tf Gh. eapply asm_with_lasm_later; eauto; [congruence|].
+    pose proof Hm as (Hva & _).
+    unfold lasm_ok; cbn. split; [intros E; apply Hva in E; congruence|].
+    split; [assumption|]. eauto.
+  - destruct d; try doneS S0.
+    eapply (t_list_copy_loop cf a l0); eauto; exact I.
 Qed.
